@@ -207,7 +207,12 @@ func renderOne(ast string, data interface{}, debug bool, extra map[string]flamin
 
 // renderAmong: template "t" is rendered on an engine that holds the given files (t and its neighbours in the same directory)
 func renderAmong(files map[string]string, data interface{}, debug bool, extra map[string]flamingo.TemplateFunc) Result {
-	eng, err := newEngine(EngineSpec{Files: files, Debug: debug, Extra: extra})
+	return renderAmongM(files, data, debug, extra, "")
+}
+
+// renderAmongM: the same with an asset manifest next to the templates (and the module's asset() function registered)
+func renderAmongM(files map[string]string, data interface{}, debug bool, extra map[string]flamingo.TemplateFunc, manifest string) Result {
+	eng, err := newEngine(EngineSpec{Files: files, Debug: debug, Extra: extra, Manifest: manifest})
 	if err != nil {
 		return Result{Class: "harness-error", Msg: err.Error()}
 	}
